@@ -12,6 +12,7 @@ from vp import gen, probe
 from vp import defaults
 from vp import reuse
 from vp import forms as argforms
+from vp import corners
 
 RULE = ('seeded generator: non-negative images 1..40 per side of any aspect ratio (odd/even/non-square), smooth (sums of '
         'Gaussians) and spiky, blur extents 0..10 samples, all angles, pixel scales and oversampling 1..6, circular '
@@ -19,7 +20,7 @@ RULE = ('seeded generator: non-negative images 1..40 per side of any aspect rati
         'sample and extent > 0.')
 ASSUMPTIONS = ['a reference convolution whose minimum is above -1e-12*max counts as non-negative']
 PLAN = {'quick': {'gen': 8}, 'thorough': {'gen': 16, 'tests': 1, 'docs': 1}}
-REQUIRED_BUCKETS = ['defaults', 'forms', 'img:all-zero', 'extent:numpy-scalars', 'img:reduced-precision', 'angle:numpy-integer', 'img:faint', 'img:bright', 'pixel', 'jitter', 'smear', 'shape:square', 'shape:nonsquare', 'shape:odd', 'shape:even', 'img:smooth',
+REQUIRED_BUCKETS = ['defaults', 'corners', 'forms', 'img:all-zero', 'extent:numpy-scalars', 'img:reduced-precision', 'angle:numpy-integer', 'img:faint', 'img:bright', 'pixel', 'jitter', 'smear', 'shape:square', 'shape:nonsquare', 'shape:odd', 'shape:even', 'img:smooth',
                     'img:spiky', 'conv:nonneg', 'extent:0', 'translate', 'units', 'sequence', 'img:integer', 'extent:small-int*oversample', 'args:positional', 'oversample:fractional', 'extent:small-fraction-of-a-pixel']
 REQUIRED_ANCHORS = ['probe:pixel', 'probe:jitter', 'probe:smear']
 REQUIRED_ORACLES = ['blur:shape', 'blur>=0', 'blur=conv', 'blur:total', 'translate', 'identity', 'units', 'homogeneous']
@@ -185,6 +186,7 @@ def workload(ctx, lentil):
     defaults.run(ctx, lentil, 'C19', 'blur:shape')
     reuse.run(ctx, lentil, 'C19', 'blur:shape')
     argforms.run(ctx, lentil, 'C19', 'blur:shape')
+    corners.run(ctx, lentil, 'C19', 'blur:shape')
     rng = ctx.rng
     narrow_scalars(ctx, lentil, rng)
     small_int_arguments(ctx, lentil, rng)
